@@ -163,6 +163,24 @@ func diffObs(a, b obs) (kind, detail string) {
 var keyPool = []string{"a", "b", "c", "d", "e", "k1", "k2", "zz", "A", "é", "0", "10", "2", "", "x y"}
 
 func orderProgram(r *mon.Rand) (src string, tags []string) {
+	if r.Chance(1, 25) {
+		// several things wrong at once: which one is reported must not vary
+		bad := []string{"[1]", "{}", "g()", "-x", "1 + 2", "{1, 2}", "func() {}", "a.b", "'{x}'"}
+		p := r.Perm(len(bad))
+		k := 2 + r.Intn(4)
+		var ps []string
+		for i := 0; i < k; i++ {
+			ps = append(ps, fmt.Sprintf("p%d=%s", i, bad[p[i]]))
+		}
+		switch r.Intn(3) {
+		case 0:
+			return "func f(" + strings.Join(ps, ", ") + ") { return 1 }\nprint(f())\n", []string{fmt.Sprintf("bad-defaults%d", k)}
+		case 1:
+			return "print(1)\nx := [nosuch_a, nosuch_b, nosuch_c]\ny := {nosuch_d: nosuch_e}\n", []string{"several-undefined"}
+		default:
+			return "m := {\"a\": 1, \"b\": 2, \"c\": 3}\nprint(m.nope, m.nada)\n", []string{"missing-attr"}
+		}
+	}
 	var b strings.Builder
 	tick := 0
 	tk := func() string { tick++; return fmt.Sprintf("tick(%d)", tick) }
